@@ -80,7 +80,18 @@ class Taint:
             tp = TP.setdefault(fn, set())
             n0 = (len(t), len(tp), fn in RET)
 
+            is_clos = bi.is_closure
+
             def place_tainted(place):
+                if is_clos and place[0] == 1:
+                    # closure environment: per-capture taint
+                    for pj in place[1]:
+                        if pj == "*":
+                            continue
+                        if pj.startswith(".") and pj[1:].isdigit():
+                            return ("cap", int(pj[1:])) in t or 1 in t
+                        break
+                    return 1 in t or any(isinstance(x, tuple) for x in t)
                 if place[0] in t:
                     return True
                 if E.nderef(place[1]) > 0:
@@ -132,11 +143,12 @@ class Taint:
                             if rv[0] == "agg" and rv[1][0] in ("closure", "coroutine") and rv[1][1] in cg.bodies:
                                 # a closure capturing a tainted value: its body sees it through the environment
                                 ct = T.setdefault(rv[1][1], set())
-                                if 1 not in ct:
-                                    ct.add(1)
-                                    why[(rv[1][1], 1)] = "captured in %s" % short(fn)
-                                    if rv[1][1] not in work:
-                                        work.append(rv[1][1])
+                                for k, o in enumerate(rv[2]):
+                                    if o[0] in ("c", "m") and op_tainted(o) and ("cap", k) not in ct:
+                                        ct.add(("cap", k))
+                                        why[(rv[1][1], ("cap", k))] = "captured in %s" % short(fn)
+                                        if rv[1][1] not in work:
+                                            work.append(rv[1][1])
                     tm = blk["t"]
                     if tm[0] != "call":
                         continue
